@@ -84,6 +84,10 @@ EXPLANATION += (
     ' Round 14: the bootstrap sample size is floored only as far as a guard on the number of markers allows (R-CAP/sample-within-population, rule of C02).'
 )
 
+EXPLANATION += (
+    ' Round 15: the candidates compared under a parent are the leaves below that very node (R-PROV/leaves-under-parent, rule of C02).'
+)
+
 RULE_TEXT = (
     "one obligation per value-identity / provenance / dominance relation "
     "named above; non-trivial when both ends of the relation exist")
@@ -142,6 +146,11 @@ def check(ctx):
     # another branch gives an assignment that is not a path of the tree
     from .C02 import check_leaves_under_parent
     check_leaves_under_parent(ctx)
+    # a run that drops a level or flattens is a valid run: the settings
+    # tables validated against the reduced tree may name levels it no
+    # longer has (rule of C17)
+    from .C17 import check_lookup_superset_tolerated
+    check_lookup_superset_tolerated(ctx)
 
 
 def _node_of(cfg, rd, astn):
